@@ -1,4 +1,4 @@
-From Coq Require Import List String Ascii ZArith Lia Bool Arith.
+From Coq Require Import List String Ascii ZArith Lia Bool Arith Permutation.
 From YT Require Import Base.Str Base.KV Model.Doc Model.Dom Model.Path Model.Builder Model.Overlay Model.DocSet
   Proofs.OverlayProofs.
 Import ListNotations.
@@ -141,4 +141,285 @@ Theorem unnamed_counter_increases doc tags pol ds :
 Proof.
   unfold ds_add_unnamed, ds_add. simpl.
   destruct (ctx_get (unnamed_name (S (ds_unnamed ds))) (ds_ctx ds)) as [[od ot]|]; [destruct pol|]; reflexivity.
+Qed.
+
+(* ====================================================================================================
+   batch adds: AddDocumentsFromDirectory / AddDocumentsFromManifest / AddPropertiesFromManifest
+   ==================================================================================================== *)
+
+(* a refused add leaves the set exactly as it was *)
+Lemma add_refused_unchanged name doc tags pol ds :
+  snd (ds_add name doc tags pol ds) = false -> fst (ds_add name doc tags pol ds) = ds.
+Proof.
+  unfold ds_add. destruct (ctx_get name (ds_ctx ds)) as [[od ot]|]; [destruct pol|]; simpl; intros H;
+    try discriminate; reflexivity.
+Qed.
+(* only must-create over an existing name refuses *)
+Lemma add_ok_unless_must name doc tags pol ds :
+  pol <> PMustCreate -> snd (ds_add name doc tags pol ds) = true.
+Proof.
+  intros N. unfold ds_add. destruct (ctx_get name (ds_ctx ds)) as [[od ot]|]; [destruct pol|]; simpl; try reflexivity.
+  contradiction.
+Qed.
+Lemma add_ok_names name doc tags pol ds :
+  snd (ds_add name doc tags pol ds) = true -> ds_names (fst (ds_add name doc tags pol ds)) = ds_names ds ++ [name].
+Proof.
+  unfold ds_add. destruct (ctx_get name (ds_ctx ds)) as [[od ot]|]; [destruct pol|]; simpl; intros H;
+    try discriminate; reflexivity.
+Qed.
+(* what a successful add serves under its own name *)
+Lemma add_ok_named name doc tags pol ds :
+  snd (ds_add name doc tags pol ds) = true ->
+  (pol = PMergeTags -> ctx_get name (ds_ctx ds) = None) ->
+  ds_named name (fst (ds_add name doc tags pol ds)) = Some doc.
+Proof.
+  unfold ds_add, ds_named. destruct (ctx_get name (ds_ctx ds)) as [[od ot]|]; [destruct pol|]; simpl; intros H M;
+    try discriminate; try (rewrite ctx_get_set_same; reflexivity).
+  specialize (M eq_refl). discriminate.
+Qed.
+Lemma named_other name m doc tags pol ds :
+  m <> name -> ds_named m (fst (ds_add name doc tags pol ds)) = ds_named m ds.
+Proof. intros N. unfold ds_named. now rewrite add_other_name. Qed.
+
+Definition decoded (files : list (string * option node)) : Prop := forall n, ~ In (n, None) files.
+
+(* ---------- directory: success means every file decoded; the names are appended in glob order *)
+Theorem add_files_ok_decoded : forall files tags pol ds,
+  snd (ds_add_files files tags pol ds) = true -> decoded files.
+Proof.
+  induction files as [|[n [d|]] r IH]; intros tags pol ds H m Hin; simpl in *.
+  - exact Hin.
+  - destruct (ds_add n d tags pol ds) as [ds' ok] eqn:E. destruct ok; [|discriminate].
+    destruct Hin as [Hin|Hin]; [discriminate|]. exact (IH _ _ _ H m Hin).
+  - discriminate.
+Qed.
+
+Theorem add_files_ok_names : forall files tags pol ds,
+  snd (ds_add_files files tags pol ds) = true ->
+  ds_names (fst (ds_add_files files tags pol ds)) = ds_names ds ++ map fst files.
+Proof.
+  induction files as [|[n [d|]] r IH]; intros tags pol ds H; simpl in *.
+  - now rewrite app_nil_r.
+  - destruct (ds_add n d tags pol ds) as [ds' ok] eqn:E. destruct ok; [|discriminate].
+    rewrite (IH _ _ _ H). pose proof (add_ok_names n d tags pol ds) as Hn. rewrite E in Hn. simpl in Hn.
+    rewrite Hn by reflexivity. now rewrite <- app_assoc.
+  - discriminate.
+Qed.
+
+(* without must-create a directory of decodable files is always accepted, and the call IS the sequence of
+   single adds, in glob order *)
+Theorem add_files_is_fold : forall files tags pol ds,
+  pol <> PMustCreate -> decoded files ->
+  ds_add_files files tags pol ds =
+  (fold_left (fun acc f => match snd f with Some d => fst (ds_add (fst f) d tags pol acc) | None => acc end) files ds, true).
+Proof.
+  induction files as [|[n [d|]] r IH]; intros tags pol ds N D; simpl.
+  - reflexivity.
+  - pose proof (add_ok_unless_must n d tags pol ds N) as Hok.
+    destruct (ds_add n d tags pol ds) as [ds' ok] eqn:E. simpl in Hok. subst ok.
+    apply IH; [exact N|]. intros m Hin. apply (D m). now right.
+  - exfalso. apply (D n). now left.
+Qed.
+
+(* the first file that cannot be read ends the call: the files before it are registered (exactly as by the
+   single adds), the files after it are not looked at *)
+Theorem add_files_first_failure : forall l1 n l2 tags pol ds,
+  pol <> PMustCreate -> decoded l1 ->
+  ds_add_files (l1 ++ (n, None) :: l2) tags pol ds = (fst (ds_add_files l1 tags pol ds), false).
+Proof.
+  induction l1 as [|[m [d|]] r IH]; intros n l2 tags pol ds N D; simpl.
+  - reflexivity.
+  - pose proof (add_ok_unless_must m d tags pol ds N) as Hok.
+    destruct (ds_add m d tags pol ds) as [ds' ok] eqn:E. simpl in Hok. subst ok.
+    apply IH; [exact N|]. intros k Hin. apply (D k). now right.
+  - exfalso. apply (D m). now left.
+Qed.
+
+(* a must-create directory add stops at the first name that is already registered; nothing of that file or the later
+   ones is registered *)
+Theorem add_files_must_create_stops : forall n d r tags ds c,
+  ctx_get n (ds_ctx ds) = Some c ->
+  ds_add_files ((n, Some d) :: r) tags PMustCreate ds = (ds, false).
+Proof. intros. simpl. rewrite (must_create_unchanged n d tags ds c H). reflexivity. Qed.
+
+(* after a successful directory add every file is served under its own path (distinct paths; with merge-tags only
+   for paths that were not registered before, where the stored document is kept by design) *)
+Theorem add_files_named : forall files tags pol ds n d,
+  snd (ds_add_files files tags pol ds) = true -> NoDup (map fst files) -> In (n, Some d) files ->
+  (pol = PMergeTags -> ctx_get n (ds_ctx ds) = None) ->
+  ds_named n (fst (ds_add_files files tags pol ds)) = Some d.
+Proof.
+  induction files as [|[m [e|]] r IH]; intros tags pol ds n d H ND Hin M; simpl in *.
+  - contradiction.
+  - destruct (ds_add m e tags pol ds) as [ds' ok] eqn:E. destruct ok; [|discriminate].
+    inversion ND as [|? ? Hnotin ND']; subst.
+    assert (Hds' : ds' = fst (ds_add m e tags pol ds)) by now rewrite E.
+    assert (Hok : snd (ds_add m e tags pol ds) = true) by now rewrite E.
+    destruct Hin as [Hin|Hin].
+    + injection Hin as -> ->.
+      (* the later files have other names *)
+      assert (Keep : forall fs acc, snd (ds_add_files fs tags pol acc) = true -> ~ In n (map fst fs) ->
+                ds_named n (fst (ds_add_files fs tags pol acc)) = ds_named n acc).
+      { clear. induction fs as [|[k [x|]] fs IHf]; intros acc H Hn; simpl in *.
+        - reflexivity.
+        - destruct (ds_add k x tags pol acc) as [acc' ok] eqn:E. destruct ok; [|discriminate].
+          rewrite IHf; [|exact H|tauto].
+          replace acc' with (fst (ds_add k x tags pol acc)) by now rewrite E.
+          apply named_other. intros ->. apply Hn. now left.
+        - discriminate. }
+      rewrite Keep; [|exact H|exact Hnotin]. rewrite Hds'. apply add_ok_named; assumption.
+    + apply IH; [exact H|exact ND'|exact Hin|].
+      intros Pm. rewrite Hds'. rewrite add_other_name; [now apply M|].
+      intros ->. apply Hnotin. change m with (fst (m, Some d)). now apply in_map.
+  - discriminate.
+Qed.
+
+(* no batch add disturbs what is served under a name outside the batch *)
+Theorem add_files_other_name : forall files tags pol ds m,
+  ~ In m (map fst files) ->
+  ctx_get m (ds_ctx (fst (ds_add_files files tags pol ds))) = ctx_get m (ds_ctx ds).
+Proof.
+  induction files as [|[k [x|]] r IH]; intros tags pol ds m Hn; simpl in *.
+  - reflexivity.
+  - destruct (ds_add k x tags pol ds) as [ds' ok] eqn:E.
+    assert (Hds' : ds' = fst (ds_add k x tags pol ds)) by now rewrite E.
+    destruct ok; simpl.
+    + rewrite IH by tauto. rewrite Hds'. apply add_other_name. intros ->. apply Hn. now left.
+    + rewrite Hds'. apply add_other_name. intros ->. apply Hn. now left.
+  - reflexivity.
+Qed.
+
+Theorem add_files_star : forall files tags pol ds, all_star ds -> all_star (fst (ds_add_files files tags pol ds)).
+Proof.
+  induction files as [|[k [x|]] r IH]; intros tags pol ds Inv; simpl.
+  - exact Inv.
+  - destruct (ds_add k x tags pol ds) as [ds' ok] eqn:E.
+    assert (Inv' : all_star ds') by (replace ds' with (fst (ds_add k x tags pol ds)) by (now rewrite E); now apply star_add).
+    destruct ok; simpl; [now apply IH|exact Inv'].
+  - exact Inv.
+Qed.
+
+(* ---------- manifest items *)
+Lemma item_name_inj manifest a b : item_name manifest a = item_name manifest b -> a = b.
+Proof. unfold item_name. intros H. apply append_inj_l in H. simpl in H. now injection H. Qed.
+
+Theorem add_items_star : forall manifest items tags pol ds,
+  all_star ds -> all_star (ds_add_items manifest items tags pol ds).
+Proof.
+  unfold ds_add_items. induction items as [|[k [x|]] r IH]; intros tags pol ds Inv; simpl.
+  - exact Inv.
+  - apply IH. now apply star_add.
+  - now apply IH.
+Qed.
+
+Theorem add_items_other_name : forall manifest items tags pol ds m,
+  (forall it, In it (map fst items) -> m <> item_name manifest it) ->
+  ctx_get m (ds_ctx (ds_add_items manifest items tags pol ds)) = ctx_get m (ds_ctx ds).
+Proof.
+  unfold ds_add_items. induction items as [|[k [x|]] r IH]; intros tags pol ds m Hn; simpl in *.
+  - reflexivity.
+  - rewrite IH by (intros it Hit; apply Hn; now right). apply add_other_name. apply Hn. now left.
+  - apply IH. intros it Hit. apply Hn. now right.
+Qed.
+
+(* every item that decodes is served as "<manifest>/<item>" (item names are distinct: they are the keys of a map) *)
+Theorem add_items_named : forall manifest items tags pol ds k d,
+  NoDup (map fst items) -> In (k, Some d) items -> pol <> PMustCreate ->
+  (pol = PMergeTags -> ctx_get (item_name manifest k) (ds_ctx ds) = None) ->
+  ds_named (item_name manifest k) (ds_add_items manifest items tags pol ds) = Some d.
+Proof.
+  unfold ds_add_items. induction items as [|[j [x|]] r IH]; intros tags pol ds k d ND Hin Np M; simpl in *.
+  - contradiction.
+  - inversion ND as [|? ? Hnotin ND']; subst. destruct Hin as [Hin|Hin].
+    + injection Hin as -> ->. unfold ds_named.
+      change (fold_left _ r ?a) with (ds_add_items manifest r tags pol a).
+      rewrite add_items_other_name.
+      * apply add_ok_named; [now apply add_ok_unless_must|exact M].
+      * intros it Hit E. apply item_name_inj in E. subst it. contradiction.
+    + apply IH; [exact ND'|exact Hin|exact Np|]. intros Pm. rewrite add_other_name; [now apply M|].
+      intros E. apply item_name_inj in E. subst j. apply Hnotin. change k with (fst (k, Some d)). now apply in_map.
+  - inversion ND as [|? ? Hnotin ND']; subst. destruct Hin as [Hin|Hin]; [discriminate|].
+    apply IH; assumption.
+Qed.
+
+(* an item that does not decode is skipped: the call goes on, and nothing is registered for it *)
+Theorem add_items_skips_undecodable : forall manifest l1 k l2 tags pol ds,
+  ds_add_items manifest (l1 ++ (k, None) :: l2) tags pol ds = ds_add_items manifest (l1 ++ l2) tags pol ds.
+Proof. intros. unfold ds_add_items. rewrite !fold_left_app. reflexivity. Qed.
+
+(* ---------- manifest items are handed out by a Go map: the ORDER in which AddDocumentsFromManifest meets them is
+   the map's iteration order.  What is served under every name does not depend on it (only the position of the new
+   layers among themselves does). *)
+Definition add_effect (doc : node) (tags : list string) (pol : policy) (old : option (node * list string))
+  : option (node * list string) :=
+  match old with
+  | Some (od, ot) =>
+      match pol with
+      | PMustCreate => Some (od, ot)
+      | PMergeTags => Some (od, unique (("*"%string :: tags) ++ ot))
+      | PNone => Some (doc, "*"%string :: tags)
+      end
+  | None => Some (doc, "*"%string :: tags)
+  end.
+
+Lemma add_own name doc tags pol ds :
+  ctx_get name (ds_ctx (fst (ds_add name doc tags pol ds))) = add_effect doc tags pol (ctx_get name (ds_ctx ds)).
+Proof.
+  unfold ds_add, add_effect. destruct (ctx_get name (ds_ctx ds)) as [[od ot]|] eqn:E; [destruct pol|]; simpl;
+    try (now rewrite ctx_get_set_same). exact E.
+Qed.
+
+Lemma add_items_other_decoded : forall manifest items tags pol ds m,
+  (forall k d, In (k, Some d) items -> m <> item_name manifest k) ->
+  ctx_get m (ds_ctx (ds_add_items manifest items tags pol ds)) = ctx_get m (ds_ctx ds).
+Proof.
+  unfold ds_add_items. induction items as [|[k [x|]] r IH]; intros tags pol ds m Hn; simpl in *.
+  - reflexivity.
+  - rewrite IH by (intros j d Hj; apply (Hn j d); now right). apply add_other_name. apply (Hn k x). now left.
+  - apply IH. intros j d Hj. apply (Hn j d). now right.
+Qed.
+
+Lemma add_items_own : forall manifest items tags pol ds k d,
+  NoDup (map fst items) -> In (k, Some d) items ->
+  ctx_get (item_name manifest k) (ds_ctx (ds_add_items manifest items tags pol ds)) =
+  add_effect d tags pol (ctx_get (item_name manifest k) (ds_ctx ds)).
+Proof.
+  unfold ds_add_items. induction items as [|[j [x|]] r IH]; intros tags pol ds k d ND Hin; simpl in *.
+  - contradiction.
+  - inversion ND as [|? ? Hnotin ND']; subst. destruct Hin as [Hin|Hin].
+    + injection Hin as -> ->.
+      change (fold_left _ r ?a) with (ds_add_items manifest r tags pol a).
+      rewrite add_items_other_decoded; [apply add_own|].
+      intros i e Hi E. apply item_name_inj in E. subst i. apply Hnotin.
+      change k with (fst (k, Some e)). now apply in_map.
+    + change (fold_left _ r ?a) with (ds_add_items manifest r tags pol a).
+      unfold ds_add_items in IH. unfold ds_add_items. rewrite (IH tags pol _ k d ND' Hin).
+      rewrite add_other_name; [reflexivity|].
+      intros E. apply item_name_inj in E. subst j. apply Hnotin. change k with (fst (k, Some d)). now apply in_map.
+  - inversion ND as [|? ? Hnotin ND']; subst. destruct Hin as [Hin|Hin]; [discriminate|]. now apply IH.
+Qed.
+
+Theorem add_items_order_independent : forall manifest items items' tags pol ds m,
+  Permutation items items' -> NoDup (map fst items) ->
+  ctx_get m (ds_ctx (ds_add_items manifest items tags pol ds)) =
+  ctx_get m (ds_ctx (ds_add_items manifest items' tags pol ds)).
+Proof.
+  intros manifest items items' tags pol ds m P ND.
+  assert (ND' : NoDup (map fst items')).
+  { eapply Permutation_NoDup; [|exact ND]. now apply Permutation_map. }
+  destruct (existsb (fun it => String.eqb m (item_name manifest (fst it)) &&
+                               match snd it with Some _ => true | None => false end) items) eqn:E.
+  - apply existsb_exists in E as [[k [d|]] [Hin Hb]]; simpl in Hb; [|now rewrite andb_false_r in Hb].
+    rewrite andb_true_r in Hb. apply String.eqb_eq in Hb. subst m.
+    rewrite (add_items_own manifest items tags pol ds k d ND Hin).
+    rewrite (add_items_own manifest items' tags pol ds k d ND'); [reflexivity|].
+    eapply Permutation_in; eauto.
+  - assert (Hn : forall k d, In (k, Some d) items -> m <> item_name manifest k).
+    { intros k d Hin ->. assert (X : existsb (fun it => String.eqb (item_name manifest k) (item_name manifest (fst it)) &&
+                               match snd it with Some _ => true | None => false end) items = true).
+      { apply existsb_exists. exists (k, Some d). split; [exact Hin|]. simpl. now rewrite String.eqb_refl. }
+      rewrite X in E. discriminate. }
+    rewrite (add_items_other_decoded manifest items tags pol ds m Hn).
+    rewrite (add_items_other_decoded manifest items' tags pol ds m); [reflexivity|].
+    intros k d Hin. apply (Hn k d). eapply Permutation_in; [apply Permutation_sym; exact P|exact Hin].
 Qed.
